@@ -20,7 +20,7 @@ open Conv
 (* Which coalesce_entries the implementation is compared with: false = patronus-dse as it is
    (delete list in discovery order), true = with `delete_list.sort_unstable()` before
    delete_entries.  FLIP THIS (and drop the finding coalesce:overlap) when that fix is committed in /repo. *)
-let coalesce_fixed = false
+let coalesce_fixed = true
 
 let rec nat_of_int (i : int) : nat = if i <= 0 then O else S (nat_of_int (i - 1))
 let rec int_of_nat = function O -> 0 | S k -> 1 + int_of_nat k
